@@ -141,6 +141,7 @@ type Gen struct {
 	usedGInv  bool
 	defers    []*ssa.Defer
 	nq        int
+	touched   map[string]bool
 }
 
 func (g *Gen) fatalf(f string, a ...interface{}) {
@@ -185,6 +186,9 @@ func (g *Gen) region(key string, mk func() *Region) *Region {
 }
 
 func (g *Gen) heapGet(h Heap, r *Region) string {
+	if g.touched != nil {
+		g.touched[r.Key] = true
+	}
 	if t, ok := h[r.Key]; ok {
 		return t
 	}
@@ -919,6 +923,9 @@ func (g *Gen) enterLoop(li *loopInfo, st *BState, phiEntry map[*ssa.Phi]string) 
 		}
 	}
 	_ = a
+	if t := g.autoInv(li, phiEntry); t != "" {
+		g.addObl(st, "I.init", fmt.Sprintf("loop%d:auto-bounds", li.ordinal), pos, props, t, "inferred: counter bounds")
+	}
 	g.checkPkgInvs(st, "I.init", fmt.Sprintf("loop%d:pkginv:", li.ordinal), pos, "true")
 	// havoc
 	ws := g.loopWrites(li)
@@ -963,6 +970,9 @@ func (g *Gen) enterLoop(li *loopInfo, st *BState, phiEntry map[*ssa.Phi]string) 
 	}
 	if len(facts) > 0 {
 		g.assume(st, "(and "+strings.Join(facts, " ")+")")
+	}
+	if t := g.autoInv(li, phiVals); t != "" {
+		g.assume(st, t)
 	}
 	g.assumePkgInvs(st, g.fn)
 	li.headInv = cloneInv(st.inv)
@@ -1019,9 +1029,6 @@ func (g *Gen) backEdgeObls(b, h *ssa.BasicBlock, st *BState) {
 		// the loop head assumed the invariant instance over the havocked heap; the back edge must re-establish it
 		g.checkPkgInvsAgainst(est, "I.pres", fmt.Sprintf("loop%d:pkginv:", li.ordinal), pos, "true", li.headInv)
 	}
-	if li.spec == nil {
-		return
-	}
 	pidx := -1
 	for i, p := range h.Preds {
 		if p == b {
@@ -1034,9 +1041,15 @@ func (g *Gen) backEdgeObls(b, h *ssa.BasicBlock, st *BState) {
 			phiVals[phi] = g.val(phi.Edges[pidx])
 		}
 	}
-	env := g.loopEnv(li, st.heap, phiVals)
 	_, pos := g.anchorForLoop(li)
 	props := g.allProps()
+	if t := g.autoInv(li, phiVals); t != "" {
+		g.addObl(est, "I.pres", fmt.Sprintf("loop%d:auto-bounds", li.ordinal), pos, props, t, "inferred: counter bounds")
+	}
+	if li.spec == nil {
+		return
+	}
+	env := g.loopEnv(li, st.heap, phiVals)
 	for _, inv := range li.spec.Invariants {
 		t := g.trBool(inv.Expr, env, inv)
 		g.addObl(est, "I.pres", fmt.Sprintf("loop%d:%s", li.ordinal, inv.Name), pos, g.clauseProps(inv, props), t, inv.Src)
@@ -1057,4 +1070,72 @@ func (g *Gen) regionByKey(k string) *Region {
 		return mk(g)
 	}
 	return nil
+}
+
+// autoInv: inferred (and proved, like any other invariant) bounds of loop counters.
+// For a header phi p = [c on entry, p+k on the back edge] (c, k constants, k > 0): p >= c.
+// If the header exits on `p+k < N` (the range-loop shape of go/ssa) also: p == c || p < N.
+func (g *Gen) autoInv(li *loopInfo, vals map[*ssa.Phi]string) string {
+	var parts []string
+	h := li.header
+	for _, in := range h.Instrs {
+		phi, ok := in.(*ssa.Phi)
+		if !ok {
+			continue
+		}
+		if b, ok := phi.Type().Underlying().(*types.Basic); !ok || b.Info()&types.IsInteger == 0 {
+			continue
+		}
+		var c *ssa.Const
+		var next *ssa.BinOp
+		okShape := true
+		for i, p := range h.Preds {
+			e := phi.Edges[i]
+			if g.backEdge[[2]int{p.Index, h.Index}] {
+				bo, ok := e.(*ssa.BinOp)
+				if !ok || bo.Op != token.ADD || bo.X != ssa.Value(phi) {
+					okShape = false
+					break
+				}
+				if k, ok := constInt(bo.Y); !ok || k <= 0 {
+					okShape = false
+					break
+				}
+				if next != nil && next != bo {
+					okShape = false
+					break
+				}
+				next = bo
+			} else {
+				cc, ok := e.(*ssa.Const)
+				if !ok || (c != nil && c.Int64() != cc.Int64()) {
+					okShape = false
+					break
+				}
+				c = cc
+			}
+		}
+		if !okShape || c == nil || next == nil {
+			continue
+		}
+		pt, ok := vals[phi]
+		if !ok {
+			continue
+		}
+		cs := smtInt(c.Int64())
+		parts = append(parts, fmt.Sprintf("(>= %s %s)", pt, cs))
+		if ifi, ok := h.Instrs[len(h.Instrs)-1].(*ssa.If); ok {
+			if cond, ok := ifi.Cond.(*ssa.BinOp); ok && cond.Op == token.LSS && cond.X == ssa.Value(next) {
+				if nt, ok := g.vals[cond.Y]; ok {
+					parts = append(parts, fmt.Sprintf("(or (= %s %s) (< %s %s))", pt, cs, pt, nt))
+				} else if _, isC := cond.Y.(*ssa.Const); isC {
+					parts = append(parts, fmt.Sprintf("(or (= %s %s) (< %s %s))", pt, cs, pt, g.val(cond.Y)))
+				}
+			}
+		}
+	}
+	if len(parts) == 0 {
+		return ""
+	}
+	return "(and " + strings.Join(parts, " ") + ")"
 }
